@@ -4,13 +4,15 @@
 // definition and breaks that proof obligation, whatever the generated histories happen to exercise.
 //
 // Supported subset (anything else makes the function "untranslatable", which also breaks the proof obligation):
-//   types       sdkmath.Int, sdkmath.LegacyDec, Go integers  -> Z;  bool -> bool;  string and enum values -> Z (compared only);
-//               slices only through len(x.F) (the record carries the length);  pointers / values of whitelisted structs -> records
-//   statements  if / else, tagless and tagged switch (no fallthrough), return, := and = on locals, assignment to receiver fields,
-//               var declarations, x++ / x--, calls of whitelisted mutating methods as statements
-//   expressions field selection, the Int / LegacyDec methods listed in intMethods / decMethods, a few sdkmath constructors,
-//               integer arithmetic and comparisons, && || !, calls of whitelisted methods, package constants and package variables
-//               initialised by a translatable expression
+//
+//	types       sdkmath.Int, sdkmath.LegacyDec, Go integers  -> Z;  bool -> bool;  string and enum values -> Z (compared only);
+//	            slices only through len(x.F) (the record carries the length);  pointers / values of whitelisted structs -> records
+//	statements  if / else, tagless and tagged switch (no fallthrough), return, := and = on locals, assignment to receiver fields,
+//	            var declarations, x++ / x--, calls of whitelisted mutating methods as statements
+//	expressions field selection, the Int / LegacyDec methods listed in intMethods / decMethods, a few sdkmath constructors,
+//	            integer arithmetic and comparisons, && || !, calls of whitelisted methods, package constants and package variables
+//	            initialised by a translatable expression
+//
 // Conventions: an `error` result becomes option (None = error); a method assigning to its receiver returns the new receiver record;
 // Int.IsNil() is `false` (values read back from the store are never nil); integer conversions are the identity.
 package main
@@ -21,6 +23,7 @@ import (
 	"go/constant"
 	"go/token"
 	"go/types"
+	"math/big"
 	"sort"
 	"strings"
 
@@ -78,6 +81,15 @@ var kernelList = []kernelSpec{
 	{"x/bet/types", "Bet", "SetResult"},
 	{"x/market/types", "Market", "HasOdds"},
 	{"x/market/types", "MarketResolutionTicketPayload", "ValidateWinnerOdds"},
+	{"x/mint/types", "", "NonePhase"},
+	{"x/mint/types", "", "EndPhase"},
+	{"x/mint/types", "", "IsEndPhase"},
+	{"x/mint/types", "Params", "GetPhaseAtStep"},
+	{"x/mint/types", "Params", "IsEndPhaseByStep"},
+	{"x/mint/types", "Params", "getPhaseBlocks"},
+	{"x/mint/types", "Minter", "CurrentPhase"},
+	{"x/mint/types", "Minter", "BlockProvisions"},
+	{"x/mint/types", "Minter", "AnnualProvisions"},
 }
 
 // structs that only occur as parameters
@@ -124,8 +136,21 @@ func (k *ktrans) structOf(t types.Type) string {
 }
 
 // galType: "Z", "bool", "G_<T>", or "" (unsupported); lenField: the value is a slice represented by its length.
+func isCoin(t types.Type) bool {
+	n, ok := t.(*types.Named)
+	return ok && n.Obj().Pkg() != nil && n.Obj().Pkg().Path() == "github.com/cosmos/cosmos-sdk/types" && n.Obj().Name() == "Coin"
+}
+
+func isBigInt(t types.Type) bool {
+	if p, ok := t.(*types.Pointer); ok {
+		t = p.Elem()
+	}
+	n, ok := t.(*types.Named)
+	return ok && n.Obj().Pkg() != nil && n.Obj().Pkg().Path() == "math/big" && n.Obj().Name() == "Int"
+}
+
 func (k *ktrans) galType(t types.Type) (string, bool) {
-	if mathType(t) != "" {
+	if mathType(t) != "" || isCoin(t) || isBigInt(t) {
 		return "Z", false
 	}
 	if s := k.structOf(t); s != "" {
@@ -352,6 +377,34 @@ func (c *fctx) expr(e ast.Expr) string {
 		return c.fail("operator %s", e.Op)
 	case *ast.CallExpr:
 		return c.call(e)
+	case *ast.IndexExpr:
+		// xs[k] on a slice represented as a list; out of range (a Go panic) yields the zero value
+		gt, _ := c.k.galType(c.info.TypeOf(e.X))
+		switch {
+		case strings.HasPrefix(gt, "list G_"):
+			return fmt.Sprintf("(knth %s %s %s_zero)", c.expr(e.X), c.expr(e.Index), strings.TrimPrefix(gt, "list "))
+		case gt == "list Z":
+			return fmt.Sprintf("(knth %s %s 0)", c.expr(e.X), c.expr(e.Index))
+		}
+		return c.fail("index expression on a value that is not represented as a list")
+	case *ast.CompositeLit:
+		s := c.k.structOf(c.info.TypeOf(e))
+		if s == "" {
+			return c.fail("composite literal of a type that is not translated")
+		}
+		out := fmt.Sprintf("G_%s_zero", s)
+		for _, el := range e.Elts {
+			kv, ok := el.(*ast.KeyValueExpr)
+			if !ok {
+				return c.fail("positional composite literal")
+			}
+			key, ok := kv.Key.(*ast.Ident)
+			if !ok {
+				return c.fail("composite literal key")
+			}
+			out = fmt.Sprintf("(set_G_%s_%s %s %s)", s, key.Name, out, c.expr(kv.Value))
+		}
+		return out
 	}
 	return c.fail("expression %T", e)
 }
@@ -389,6 +442,11 @@ func (c *fctx) pkgVar(obj *types.Var) string {
 func (c *fctx) call(e *ast.CallExpr) string {
 	var args []string
 	for _, a := range e.Args {
+		if tv, ok := c.info.Types[a]; ok && tv.Value != nil && tv.Value.Kind() == constant.String {
+			// a constant string is only meaningful to the constructors handled below (LegacyMustNewDecFromStr)
+			args = append(args, "CONSTANT_STRING")
+			continue
+		}
 		args = append(args, c.expr(a))
 	}
 	// conversions int64(x), uint64(x), T(x)
@@ -427,8 +485,27 @@ func (c *fctx) call(e *ast.CallExpr) string {
 						return "PREC"
 					case "NewInt", "NewIntFromUint64":
 						return args[0]
-					case "LegacyNewDec", "LegacyNewDecFromInt":
+					case "LegacyNewDec", "LegacyNewDecFromInt", "LegacyNewDecFromBigInt":
 						return fmt.Sprintf("(dec_of_int %s)", args[0])
+					case "NewIntFromBigInt":
+						return args[0]
+					case "NewCoin":
+						// a coin is its amount (the denomination is dropped; NewCoin panics on a negative amount, which the lemmas exclude)
+						return args[1]
+					case "LegacyMustNewDecFromStr":
+						if tv, ok := c.info.Types[e.Args[0]]; ok && tv.Value != nil && tv.Value.Kind() == constant.String {
+							if r, ok := new(big.Rat).SetString(constant.StringVal(tv.Value)); ok {
+								r.Mul(r, new(big.Rat).SetInt(new(big.Int).Exp(big.NewInt(10), big.NewInt(18), nil)))
+								if r.IsInt() {
+									s := r.Num().String()
+									if strings.HasPrefix(s, "-") {
+										s = "(" + s + ")"
+									}
+									return s
+								}
+							}
+						}
+						return c.fail("LegacyMustNewDecFromStr of a non-constant or over-precise string")
 					case "LegacyNewDecFromStr":
 						// the decimal string of the ticket IS the value in the model (parsing is the harness's domain): always Some
 						return fmt.Sprintf("(Some %s)", args[0])
@@ -447,6 +524,14 @@ func (c *fctx) call(e *ast.CallExpr) string {
 					}
 				}
 				return c.fail("function %s.%s", id.Name, f.Sel.Name)
+			}
+		}
+		// new(big.Int).SetUint64(x) / SetInt64(x): the integer itself
+		if isBigInt(c.info.TypeOf(f.X)) && (f.Sel.Name == "SetUint64" || f.Sel.Name == "SetInt64") && len(args) == 1 {
+			if inner, ok := f.X.(*ast.CallExpr); ok {
+				if id, ok := inner.Fun.(*ast.Ident); ok && id.Name == "new" {
+					return args[0]
+				}
 			}
 		}
 		// method on Int / LegacyDec
@@ -499,6 +584,10 @@ func (c *fctx) ret(s *ast.ReturnStmt) string {
 	case "val", "bool":
 		if len(s.Results) == 1 {
 			return c.expr(s.Results[0])
+		}
+	case "val2":
+		if len(s.Results) == 2 {
+			return fmt.Sprintf("(%s, %s)", c.expr(s.Results[0]), c.expr(s.Results[1]))
 		}
 	case "valerr":
 		if len(s.Results) == 2 {
@@ -612,6 +701,49 @@ func (c *fctx) assignedIn(body *ast.BlockStmt) []string {
 	return out
 }
 
+// loopOver: the body of a loop as a fold over the list `over` (the element is bound to vname); `after` are the statements that follow
+func (c *fctx) loopOver(lbody *ast.BlockStmt, vname string, over string, after []ast.Stmt) string {
+	var vars []string
+	for _, a := range c.assignedIn(lbody) {
+		vars = append(vars, ident(a))
+	}
+	// a return inside the (outermost) loop: carried as an optional result that also ends the loop
+	hasRet := false
+	ast.Inspect(lbody, func(n ast.Node) bool {
+		if _, ok := n.(*ast.ReturnStmt); ok {
+			hasRet = true
+		}
+		return true
+	})
+	if hasRet {
+		if len(c.loop) > 0 {
+			return c.fail("return inside a nested range loop")
+		}
+		vars = append(vars, "g__ret")
+	}
+	tuple := strings.Join(vars, ", ")
+	c.loop = append(c.loop, tuple)
+	body := c.stmts(lbody.List)
+	st := c.loopState("g__brk")
+	init := c.loopState("false")
+	stop := c.loopState("true")
+	c.loop = c.loop[:len(c.loop)-1]
+	pat := st
+	if !strings.HasPrefix(pat, "(") {
+		pat = "g__brk"
+	} else {
+		pat = "'" + pat
+	}
+	afterS := c.stmts(after)
+	pre := ""
+	if hasRet {
+		pre = "let g__ret := None in\n  "
+		afterS = fmt.Sprintf("match g__ret with Some g__r => g__r | None => %s end", afterS)
+	}
+	return fmt.Sprintf("%slet %s := kfold %s %s (fun %s %s => if g__brk then %s else %s) in\n  %s",
+		pre, pat, init, over, pat, vname, stop, body, afterS)
+}
+
 func (c *fctx) stmts(list []ast.Stmt) string {
 	if len(list) == 0 {
 		if len(c.loop) > 0 {
@@ -631,6 +763,40 @@ func (c *fctx) stmts(list []ast.Stmt) string {
 			}
 		}
 		return c.fail("branch statement %s", s.Tok)
+	case *ast.ForStmt:
+		// for i := 0; i < N; i++ { body }   ==>   a fold over the indices 0 .. N-1
+		var iv *ast.Ident
+		if as, ok := s.Init.(*ast.AssignStmt); ok && as.Tok == token.DEFINE && len(as.Lhs) == 1 && len(as.Rhs) == 1 {
+			if id, ok := as.Lhs[0].(*ast.Ident); ok {
+				if v, ok := c.constVal(as.Rhs[0]); ok && v == "0" {
+					iv = id
+				}
+			}
+		}
+		cond, _ := s.Cond.(*ast.BinaryExpr)
+		post, _ := s.Post.(*ast.IncDecStmt)
+		if iv == nil || cond == nil || post == nil || cond.Op != token.LSS || post.Tok != token.INC {
+			return c.fail("for loop that is not `for i := 0; i < n; i++`")
+		}
+		if x, ok := cond.X.(*ast.Ident); !ok || x.Name != iv.Name {
+			return c.fail("for loop condition")
+		}
+		if x, ok := post.X.(*ast.Ident); !ok || x.Name != iv.Name {
+			return c.fail("for loop increment")
+		}
+		for _, a := range c.assignedIn(s.Body) {
+			if a == iv.Name {
+				return c.fail("for loop body assigns to the loop variable")
+			}
+		}
+		// the bound must not depend on what the body assigns: it is evaluated once here
+		bound := c.expr(cond.Y)
+		for _, a := range c.assignedIn(s.Body) {
+			if strings.Contains(bound, ident(a)+" ") || strings.HasSuffix(bound, ident(a)) || strings.Contains(bound, ident(a)+")") {
+				return c.fail("for loop bound depends on a variable assigned in the body")
+			}
+		}
+		return c.loopOver(s.Body, ident(iv.Name), fmt.Sprintf("(kseq %s)", bound), list[1:])
 	case *ast.RangeStmt:
 		// for _, v := range E { body }   ==>   a fold over the list E carrying the variables the body assigns and a "broke out" flag
 		if s.Key != nil {
@@ -648,45 +814,7 @@ func (c *fctx) stmts(list []ast.Stmt) string {
 		if !strings.HasPrefix(gt, "list ") {
 			return c.fail("range over a value that is not represented as a list")
 		}
-		var vars []string
-		for _, a := range c.assignedIn(s.Body) {
-			vars = append(vars, ident(a))
-		}
-		// a return inside the (outermost) loop: carried as an optional result that also ends the loop
-		hasRet := false
-		ast.Inspect(s.Body, func(n ast.Node) bool {
-			if _, ok := n.(*ast.ReturnStmt); ok {
-				hasRet = true
-			}
-			return true
-		})
-		if hasRet {
-			if len(c.loop) > 0 {
-				return c.fail("return inside a nested range loop")
-			}
-			vars = append(vars, "g__ret")
-		}
-		tuple := strings.Join(vars, ", ")
-		c.loop = append(c.loop, tuple)
-		body := c.stmts(s.Body.List)
-		st := c.loopState("g__brk")
-		init := c.loopState("false")
-		stop := c.loopState("true")
-		c.loop = c.loop[:len(c.loop)-1]
-		pat := st
-		if !strings.HasPrefix(pat, "(") {
-			pat = "g__brk"
-		} else {
-			pat = "'" + pat
-		}
-		after := rest()
-		pre := ""
-		if hasRet {
-			pre = "let g__ret := None in\n  "
-			after = fmt.Sprintf("match g__ret with Some g__r => g__r | None => %s end", after)
-		}
-		return fmt.Sprintf("%slet %s := kfold %s %s (fun %s %s => if g__brk then %s else %s) in\n  %s",
-			pre, pat, init, c.expr(s.X), pat, vname, stop, body, after)
+		return c.loopOver(s.Body, vname, c.expr(s.X), list[1:])
 	case *ast.ReturnStmt:
 		if len(c.loop) == 1 {
 			saved := c.loop
@@ -928,6 +1056,7 @@ func analyseKernels(w *world) string {
 	b.WriteString("From Coq Require Import ZArith Bool List.\nFrom Sge Require Import Lib.Dec.\nImport ListNotations.\nOpen Scope Z_scope.\nOpen Scope bool_scope.\n\n")
 	b.WriteString("Definition klen {A} (l : list A) : Z := Z.of_nat (length l).\n")
 	b.WriteString("(* a range loop: the state carries the variables the body assigns and a flag set by break / return *)\nDefinition kfold {S A} (init : S) (l : list A) (f : S -> A -> S) : S := fold_left f l init.\n")
+	b.WriteString("Definition kseq (n : Z) : list Z := map Z.of_nat (seq 0 (Z.to_nat n)).\n(* xs[k]; outside the range (where Go panics) the given zero value *)\nDefinition knth {A} (l : list A) (k : Z) (d : A) : A := if k <? 0 then d else nth (Z.to_nat k) l d.\n")
 	b.WriteString("Definition dec_ceil (a : Z) : Z := let q := Z.quot a PREC in let r := Z.rem a PREC in if r =? 0 then q * PREC else if r <? 0 then q * PREC else (q + 1) * PREC.\n\n")
 	// records
 	for _, name := range k.order {
@@ -944,6 +1073,22 @@ func analyseKernels(w *world) string {
 			fnames = append(fnames, f.Name())
 		}
 		fmt.Fprintf(b, "Record G_%s := { %s }.\n", name, strings.Join(fields, "; "))
+		var zs []string
+		for i := 0; i < st.NumFields(); i++ {
+			f := st.Field(i)
+			gt, _ := k.galType(f.Type())
+			if gt == "" || strings.HasPrefix(gt, "G_") {
+				continue
+			}
+			z := "0"
+			if gt == "bool" {
+				z = "false"
+			} else if strings.HasPrefix(gt, "list ") {
+				z = "[]"
+			}
+			zs = append(zs, fmt.Sprintf("G_%s_%s := %s", name, f.Name(), z))
+		}
+		fmt.Fprintf(b, "Definition G_%s_zero : G_%s := {| %s |}.\n", name, name, strings.Join(zs, "; "))
 		for _, fn := range fnames {
 			var parts []string
 			for _, g := range fnames {
@@ -983,6 +1128,8 @@ func analyseKernels(w *world) string {
 		c := &fctx{k: k, info: it.fd.pkg.TypesInfo, pkg: it.fd.pkg, recvType: it.spec.recv}
 		if d.Recv != nil && len(d.Recv.List[0].Names) > 0 {
 			c.recvName = d.Recv.List[0].Names[0].Name
+		} else if d.Recv != nil {
+			c.recvName = "_recv"
 		}
 		c.mutating = mut[it.spec.recv+"."+it.spec.name]
 		sig := it.fn.Type().(*types.Signature)
@@ -999,6 +1146,8 @@ func analyseKernels(w *world) string {
 		case 2:
 			if isErr(sig.Results().At(1).Type()) {
 				c.results = "valerr"
+			} else {
+				c.results = "val2"
 			}
 		case 3:
 			if isErr(sig.Results().At(2).Type()) {
